@@ -761,7 +761,167 @@ def check_C19(ctx):
                   'validations with faults at chosen positions; allocation counters via --wrap=malloc/free/strndup; non-trivial = an IDN failure was recorded',
                   level='proof', extra_trusted=['--wrap interposers of harness/drv.c', 'gcc ASan/UBSan/LSan', 'libidn2 2.3.3 (idn2_strerror, real conversions for the non-faulted calls)'])
 
-CHECKS = {'C11': check_C11, 'C13': check_C13, 'C15': check_C15, 'C16': check_C16, 'C19': check_C19, 'C01': check_C01, 'C07': check_C07, 'C08': check_C08, 'C09': check_C09, 'C12': check_C12, 'C03': check_C03, 'C02': check_C02, 'C04': check_C04}
+# ------------------------------------------------------------------ C17
+def unquoted_bytes(s):
+    """bytes met outside quoted strings (same quote tracking as OptionProofs.unquoted)."""
+    out = []; st = 0
+    for c in s:
+        if st == 0:
+            if c == 34: st = 1
+            else: out.append(c)
+        elif st == 1:
+            if c == 34: st = 0
+            elif c == 92: st = 2
+        else: st = 1
+    return out
+
+def check_C17(ctx):
+    step_proof(ctx)
+    n = 5 if ctx.thorough() else 4
+    alphaL = gens.LOCAL_ALPHA + [b'~', b'{', b'^']
+    L = gens.local_class(n, alpha=alphaL) + gens.local_sweep()[::3] + gens.local_random(ctx.rnd, 20000)
+    Dd = gens.dom_class(5) + gens.dom_boundary(chars=(b'_', b'x', b'-'))
+    D = gens.dom_lines(Dd) + gens.dom_lines([d.replace(b'_', b'a') for d in Dd])
+    addrs = gens.addr_structured() + [b'a#b@c.org', b'"a#b"@c.org', b'a@b_c.org', b'a_b@c_d.e_f', b'"a b"@c.org', b'a~b.{c}@d.com'] + gens.addr_class(3, alpha=[b'a', b'_', b'#', b'.', b'@', b'"', b' '])
+    orc = vlib.idn_oracle(gens.domains_of(addrs))
+    E = gens.e_lines(addrs, orc)
+    combos = [(0, 0, 0), (1, 0, 0), (0, 1, 0), (0, 0, 1)] + ([(1, 1, 0), (1, 0, 1), (0, 1, 1), (1, 1, 1)] if ctx.thorough() else [(1, 1, 1)])
+    outs = {}
+    for (r20, f53, us) in combos:
+        lib = ctx.snap.lib(**{k: True for k, v in (('rfc20', r20), ('f5322', f53), ('uscore', us)) if v})
+        name = 'build(rfc20=%d,follow5322=%d,underscore=%d)' % (r20, f53, us)
+        desc = lambda ln, a, b, name=name: '%s: implementation %s, model under the same configuration %s' % (name, a, b)
+        corr(ctx, name + ':local', L, lambda ln, o: o, lib=lib, describe=desc, genuine=False, nontrivial=lambda ln, o: not o.endswith(' -4'))
+        corr(ctx, name + ':domain', D, lambda ln, o: o, lib=lib, describe=desc, genuine=False, nontrivial=lambda ln, o: not o.startswith('-16'))
+        corr(ctx, name + ':email', E, first_fields(3), lib=lib, describe=desc, genuine=False, nontrivial=nontriv_addr)
+        outs[(r20, f53, us)] = tuple(vlib.run_both(lib, ctx.snap, X)[0] for X in (L, D, E))
+    base = outs[(0, 0, 0)]
+    nb = [0]
+    def viol(rel, obj):
+        if nb[0] < 4:
+            nb[0] += 1; relation_violation(ctx, rel, obj)
+    dmap = {ln.split(' ')[1]: o for ln, o in zip(D, base[1])}
+    for cfg, (oL, oD, oE) in outs.items():
+        r20, f53, us = cfg
+        if cfg == (0, 0, 0): continue
+        for ln, a, b in zip(L, oL, base[0]):
+            fa, fb = a.split(' '), b.split(' ')
+            if len(fa) != 4 or len(fb) != 4: continue
+            if fa[:3] != fb[:3]:
+                viol('C17_isolated', {'build': cfg, 'case': ln, 'default_build': b, 'option_build': a, 'explanation': 'an ASCII-mode local-part scanner changed with a build option'})
+            sb = bytes.fromhex(ln.split(' ')[1]) if ln.split(' ')[1] != '-' else b''
+            if not f53:
+                want = dec(fb[3]) and not (r20 and any(c in (35, 94, 96, 126, 123, 125, 124) for c in unquoted_bytes(sb)))
+                if dec(fa[3]) != want:
+                    viol('C17_rfc20', {'build': cfg, 'case': ln, 'default_build': b, 'option_build': a,
+                                       'explanation': 'mode 6531 must reject exactly the default-accepted local parts that have one of #^`{|}~ outside quotes'})
+            elif not r20 and all(1 <= c <= 127 for c in sb) and fa[3] != fa[2]:
+                viol('C17_follow_5322', {'build': cfg, 'case': ln, 'option_build': a, 'explanation': 'pure-ASCII local part: mode 6531 (4th field) must return what mode 5322 (3rd field) returns'})
+        for ln, a, b in zip(D, oD, base[1]):
+            h = ln.split(' ')[1]
+            d = bytes.fromhex(h) if h != '-' else b''
+            want = dmap.get(hx(d.replace(b'_', b'a')), None) if us else b
+            if want is not None and a != want:
+                viol('C17_underscore', {'build': cfg, 'case': ln, 'option_build': a, 'default_build_on_underscore_as_letter': want,
+                                        'explanation': 'host name must be judged as the default build judges it with _ read as a letter' if us else 'host-name scanner changed without the underscore option'})
+        for ln, a, b in zip(E, oE, base[2]):
+            m = int(ln.split(' ')[1]); ah = ln.split(' ')[3]
+            ab = bytes.fromhex(ah) if ah != '-' else b''
+            if m < 3 and not (us and b'_' in ab) and a.split(' ')[:3] != b.split(' ')[:3]:
+                viol('C17_isolated', {'build': cfg, 'case': ln, 'default_build': b, 'option_build': a, 'explanation': 'an ASCII-mode result changed with an option that does not concern it'})
+            if m == 3 and not r20 and not f53 and not (us and b'_' in ab) and a.split(' ')[:3] != b.split(' ')[:3]:
+                viol('C17_isolated', {'build': cfg, 'case': ln, 'default_build': b, 'option_build': a, 'explanation': 'mode 6531 changed although only LABELS_ALLOW_UNDERSCORE is on and the address has no underscore'})
+    return finish(ctx, rule='the library is built with the repository Makefile variables in %d configurations; L, D, E cases are compared with the model under the same configuration, and the '
+                  'relations to the default build (rfc20: exactly the #^`{|}~-outside-quotes local parts; underscore: as default with _ as a letter; follow-5322: as mode 5322 on ASCII; everything else identical) '
+                  'are evaluated on the implementation outputs' % len(combos), extra_trusted=['libidn2 2.3.3 as IDN oracle', 'GNU make + the repository Makefile'])
+
+# ------------------------------------------------------------------ C05
+HEX = b'0123456789abcdefABCDEF'
+def is_octet(o):
+    return len(o) >= 1 and all(48 <= c <= 57 for c in o) and int(o) <= 255
+def ipv4_text(c):
+    p = c.split(b'.')
+    return len(p) == 4 and all(is_octet(o) for o in p)
+def ipv4_lower(c):
+    p = c.split(b'.')
+    return len(p) == 4 and all(is_octet(o) and len(o) <= 3 for o in p) and int(p[0]) != 0
+def is_group(g):
+    return 1 <= len(g) <= 4 and all(ch in HEX for ch in g)
+def split_v4_tail(a):
+    """(groups part, v4 tail or None): the tail is the text after the last colon when it contains a dot."""
+    i = a.rfind(b':')
+    if b'.' in a[i + 1:]:
+        return a[:i + 1], a[i + 1:]
+    return a, None
+def ipv6_text(a, lower=False):
+    """RFC 4291 text form (upper bound) or the RFC 5321 section 4.1.3 grammar (lower=True)."""
+    head, q = split_v4_tail(a)
+    if q is not None:
+        if not (ipv4_lower(q) if lower else ipv4_text(q)): return False
+        if head.endswith(b'::'): body = head            # "...::" + quad
+        elif head.endswith(b':'): body = head[:-1]
+        else: return False
+        extra = 2
+    else:
+        body, extra = a, 0
+    if body.count(b'::') > 1 or b':::' in body: return False
+    if b'::' in body:
+        h, t = body.split(b'::')
+        hs = h.split(b':') if h else []
+        ts = t.split(b':') if t else []
+        if not all(is_group(g) for g in hs + ts): return False
+        n = len(hs) + len(ts)
+        if lower: return n <= (4 if q is not None else 6)
+        return n + extra <= 7
+    gs = body.split(b':') if body else []
+    return all(is_group(g) for g in gs) and len(gs) + extra == 8
+
+def check_C05(ctx):
+    step_proof(ctx)
+    lib = ctx.snap.lib()
+    contents = gens.ip_contents()
+    alpha = [b'1', b'2', b'0', b'a', b'g', b':', b'.', b'9']
+    small = [c for c in gens.all_strings(alpha, 6 if ctx.thorough() else 5)]
+    desc = lambda ln, a, b: 'literal verdict differs from the model of theorems C05_*: implementation %s, model %s' % (a, b)
+    pl = []
+    for c in contents + small:
+        for k in '46P':
+            pl.append('%s %s %s' % (k, hx(c), hx(b']'))); pl.append('%s %s -' % (k, hx(c)))
+    corr(ctx, 'parsers(is_ipv4/is_ipv6/is_ipaddr)', pl, lambda ln, o: o, describe=desc, nontrivial=lambda ln, o: len(ln) > 8,
+         note='octet values 0-300 in every position, leading zeros, dot/colon misplacements, every IPv6 shape (0-8 groups before/after ::, widths 0-5, v4 tail), tags; all strings <= 5 over {1,2,0,a,g,:,.,9}; end pointer at "]" and at the terminator')
+    addrs = []
+    for c in contents:
+        addrs.append(b'u@[' + c + b']')
+    for c in contents[::5]:
+        for pre, post in ((b'', b'x'), (b'a', b''), (b' ', b''), (b'', b' '), (b'', b']'), (b'[', b'')):
+            addrs.append(b'u@' + pre + b'[' + c + b']' + post)
+    addrs += [b'u@[' + c + b']' for c in small[::3]] + [b'u@[', b'u@[]', b'u@[1.2.3.4', b'u@]1.2.3.4[', b'u@[[1.2.3.4]]', b'"u@["@[1.2.3.4]']
+    el = gens.e_lines(addrs, {})
+    corr(ctx, 'addresses', el, first_fields(3), describe=desc, nontrivial=nontriv_addr)
+    # the property itself, on implementation outputs
+    c_e, _ = vlib.run_both(lib, ctx.snap, el)
+    nb = 0
+    for l, o in zip(el, c_e):
+        f = l.split(' '); r = o.split(' ')
+        a = bytes.fromhex(f[3]); D = a[a.rfind(b'@') + 1:]
+        if not D.startswith(b'[') or not r[0].lstrip('-').isdigit(): continue
+        acc = int(r[0]) >= 0
+        c = D[1:-1] if D.endswith(b']') and len(D) >= 2 else None
+        wf4 = c is not None and ipv4_text(c)
+        wf6 = c is not None and (ipv6_text(c[5:]) if c.startswith(b'IPv6:') else ipv6_text(c))
+        lo = c is not None and (ipv4_lower(c) or (c.startswith(b'IPv6:') and ipv6_text(c[5:], lower=True)))
+        bad = None
+        if acc and not (wf4 or wf6): bad = 'accepted, but the domain is not "[" IPv4 "]" / "[" ["IPv6:"] RFC-4291-IPv6 "]"'
+        elif lo and not acc: bad = 'rejected although it is a dotted quad with non-zero first octet / an IPv6:-tagged literal of the RFC 5321 grammar'
+        elif acc and wf4 and r[2] != '100': bad = 'IPv4 literal accepted but is_ipv4 is not the (only) flag'
+        elif acc and not wf4 and wf6 and r[2] != '010': bad = 'IPv6 literal accepted but is_ipv6 is not the (only) flag'
+        if bad and nb < 4:
+            nb += 1
+            relation_violation(ctx, 'C05', {'case': l, 'implementation': o, 'explanation': bad})
+    return finish(ctx, rule='4/6/P cases: is_ipv4, is_ipv6, is_ipaddr on (content, rest); E cases: u@[content] with junk before/after the brackets in four modes; the upper bound (RFC 4291 / dotted quad), '
+                  'the lower bound (RFC 5321 4.1.3) and the family flag are also evaluated directly on the implementation outputs with an independent reading of the grammars')
+
+CHECKS = {'C05': check_C05, 'C17': check_C17, 'C11': check_C11, 'C13': check_C13, 'C15': check_C15, 'C16': check_C16, 'C19': check_C19, 'C01': check_C01, 'C07': check_C07, 'C08': check_C08, 'C09': check_C09, 'C12': check_C12, 'C03': check_C03, 'C02': check_C02, 'C04': check_C04}
 
 def main():
     if len(sys.argv) >= 3 and sys.argv[1] == 'replay':
